@@ -11,7 +11,8 @@
                                    declares the `@NAME=…` locals with `typeset`), words 2, 4, … at top level
                                    after the return; observation `step | step | … v=<globals afterwards>`
     P [portable=1] | <hex>         what the braced-parameter lexer makes of `${<chars>`
-    R <state>* raw=<0|1> n=<k> | <stdin hex>     `read [-r] v1 … vk` on the given standard input
+    R <state>* raw=<0|1> n=<k> [d=<hex char>] | <stdin hex>
+                                   `read [-r] [-d c] v1 … vk` on the given standard input
     WS                             the set of white-space code points (tie to Rust `char::is_whitespace`)
 
     state := NAME=s<hex> | NAME=a<n>(:<hex>)* | NAME=U | !NAME=… (read-only) | nu=<0|1> | st=<n>
@@ -23,8 +24,10 @@
     modifier := ε | len | sw[:](-|=|?|+) unit* | tr(#|##|%|%%) unit*
     param := name | @ | * | # | ? | - | $ | ! | 0 | <digits> (positional, `00` = index 0)
 
-  Observation of W: `n=<count> f=<hex>,…` or `err=<class>`, then ` v=<name>:<value>,…` for the
-  variables x y e u r.  Observation of R: `st=<exit status> v=v1:<hex>,…`.
+  Observation of W: `n=<count> f=<hex>,…` or `err=<class>`, then ` a=<word>/<word>…`:
+  the attributed initial expansion of every word before splitting — per character `<code point hex><l|h|s><0..3>`
+  (origin; bit 0 = quoted, bit 1 = quoting) joined by `_`, fields by `,` (`-` empty field, `.` no field), `!` for
+  the word whose expansion failed — then ` v=<name>:<value>,…` for the variables x y e u r.  Observation of R: `st=<exit status> v=v1:<hex>,…`.
   Spec column: `=<observation>` predicted by the declarative POSIX expansion of Spec.lean
   (`posixExpandArgs`, `posixExpandSingle`, `posixExpandText`: fields as lists, XCU 2.6.2 table,
   recursive splitter `specFields`) and by `specRead`.
@@ -182,6 +185,8 @@ def initialEnv : Env :=
 structure ReadOpts where
   raw : Bool := false
   n : Nat := 1
+  /-- `-d`: the logical line delimiter -/
+  delim : Char := '\n'
   ctx : String := "arg"
   portable : Bool := false
   /-- variables declared local (`typeset`) at the start of every function call of a `fn` history -/
@@ -195,6 +200,7 @@ def applyState (st : Env × ReadOpts) (tok : String) : Option (Env × ReadOpts) 
     else if k = "st" then v.toNat?.map (fun n => ({ env with exitStatus := n }, ro))
     else if k = "raw" then some (env, { ro with raw := v = "1" })
     else if k = "n" then v.toNat?.map (fun n => (env, { ro with n := n }))
+    else if k = "d" then (hexChar v).map (fun c => (env, { ro with delim := c }))
     else if k = "ctx" then some (env, { ro with ctx := v })
     else if k = "portable" then some (env, { ro with portable := v = "1" })
     else if k = "fl" then some ({ env with flags := v.toList }, ro)
@@ -238,10 +244,43 @@ def showErr : Err → String
 def showFields (fs : List (List Char)) : String :=
   s!"n={fs.length} f=" ++ (if fs.isEmpty then "." else ",".intercalate (fs.map encChars))
 
-def obsW (r : Env × Except Err (List (List Char))) : String :=
+def hexNat (n : Nat) : String := String.ofList (Nat.toDigits 16 n)
+
+def showAttrChar (c : AttrChar) : String :=
+  hexNat c.value.toNat ++
+    (match c.origin with | .literal => "l" | .hardExpansion => "h" | .softExpansion => "s") ++
+    toString ((if c.isQuoted then 1 else 0) + (if c.isQuoting then 2 else 0))
+
+def showAttrFields (fs : List (List AttrChar)) : String :=
+  if fs.isEmpty then "." else
+    ",".intercalate (fs.map fun f => if f.isEmpty then "-" else "_".intercalate (f.map showAttrChar))
+
+/-- the initial expansion of one word as attributed fields: the model's `Phrase` (its fields) or the Spec's
+    field list; here-document contents go through the text functions -/
+def initialOf (spec : Bool) (ctx : String) (env : Env) (w : Word) : Option (Env × Except Err Fields) :=
+  let den := fun (r : Res) => (r.1, match r.2 with | .ok ph => Except.ok ph.toFields | .error e => .error e)
+  if ctx = "here" then
+    (wordToText w).map fun ts =>
+      let t := mkText ts
+      if spec then (if t.isNil then (env, .ok [[]]) else posixTextGo env true [] t)
+      else den (if t.isNil then (env, .ok Phrase.oneEmptyField) else expandTextGo env true Phrase.zeroFields t)
+  else some (if spec then posixWord env true w else den (expandWord env true w))
+
+/-- ` a=…`: word by word, each in the environment its predecessors left; `!` ends the list at the first error -/
+def showInitial (spec : Bool) (ctx : String) (env : Env) (ws : List Word) : String :=
+  let rec go (e : Env) (acc : List String) : List Word → List String
+    | [] => acc.reverse
+    | w :: rest =>
+      match initialOf spec ctx e w with
+      | none => ("?" :: acc).reverse
+      | some (_, .error _) => ("!" :: acc).reverse
+      | some (e', .ok fs) => go e' (showAttrFields fs :: acc) rest
+  "/".intercalate (go env [] ws)
+
+def obsW (attrs : String) (r : Env × Except Err (List (List Char))) : String :=
   match r with
-  | (env, .ok fs) => showFields fs ++ " v=" ++ showVars env
-  | (env, .error e) => "err=" ++ showErr e ++ " v=" ++ showVars env
+  | (env, .ok fs) => showFields fs ++ " a=" ++ attrs ++ " v=" ++ showVars env
+  | (env, .error e) => "err=" ++ showErr e ++ " a=" ++ attrs ++ " v=" ++ showVars env
 
 def obsSingle (r : Env × Except Err (List Char)) : Env × Except Err (List (List Char)) :=
   match r with
@@ -264,19 +303,27 @@ def runCtx (spec : Bool) (ctx : String) (env : Env) (ws : List Word) : Option (E
     arguments) inside a function call that first declares the given locals, words 2, 4, … at top
     level after the return.  One result per step; the first error ends the history. -/
 def runHistory (spec : Bool) (locals : List (String × Var)) (env : Env) (ws : List Word) :
-    Env × List String :=
+    Env × List String × List String :=
   let one := fun (e : Env) (w : Word) => if spec then posixExpandArg e w else expandWordMultiple e w
-  let rec go (e : Env) (inside : Bool) (acc : List String) : List Word → Env × List String
-    | [] => (e, acc.reverse)
+  -- the attributed initial expansion of the step's word, in the step's environment
+  let attr := fun (e : Env) (w : Word) =>
+    match initialOf spec "arg" e w with
+    | some (_, .ok fs) => showAttrFields fs
+    | some (_, .error _) => "!"
+    | none => "?"
+  let rec go (e : Env) (inside : Bool) (acc attrs : List String) : List Word → Env × List String × List String
+    | [] => (e, acc.reverse, attrs.reverse)
     | w :: rest =>
       let e1 := if inside then e.pushCtx locals else e
       match one e1 w with
-      | (e2, .error x) => ((if inside then e2.popCtx else e2), (("err=" ++ showErr x) :: acc).reverse)
-      | (e2, .ok fs) => go (if inside then e2.popCtx else e2) (!inside) (showFields fs :: acc) rest
-  go env true [] ws
+      | (e2, .error x) =>
+        ((if inside then e2.popCtx else e2), (("err=" ++ showErr x) :: acc).reverse, (attr e1 w :: attrs).reverse)
+      | (e2, .ok fs) =>
+        go (if inside then e2.popCtx else e2) (!inside) (showFields fs :: acc) (attr e1 w :: attrs) rest
+  go env true [] [] ws
 
-def obsH (r : Env × List String) : String :=
-  " | ".intercalate r.2 ++ " v=" ++ showVars r.1
+def obsH (r : Env × List String × List String) : String :=
+  " | ".intercalate r.2.1 ++ " a=" ++ "/".intercalate r.2.2 ++ " v=" ++ showVars r.1
 
 def showRVal (o : Option (List Char)) : String :=
   match o with
@@ -284,13 +331,14 @@ def showRVal (o : Option (List Char)) : String :=
   | none => "U"
 
 /-- `read`: a read-only target keeps its value and makes the exit status 2 -/
-def obsR (env : Env) (found : Bool) (vals : List (List Char)) : String :=
+def obsR (env : Env) (found : Bool) (text : List AttrChar) (vals : List (List Char)) : String :=
   let names := (List.range vals.length).map (fun k => s!"v{k+1}")
   let isRo := fun (n : String) => match env.getVar n with | some v => v.readOnly | none => false
   let anyRo := names.any isRo
   let shown := (names.zip vals).map (fun (n, v) =>
     n ++ ":" ++ (if isRo n then showRVal (env.getScalar n) else encChars v))
-  s!"st={if anyRo then 2 else if found then 0 else 1} v=" ++ ",".intercalate shown
+  s!"st={if anyRo then 2 else if found then 0 else 1} v=" ++ ",".intercalate shown ++
+    " a=" ++ showAttrFields [text]
 
 def showSynErr : SynErr → String
   | .emptyParam => "EmptyParam"
@@ -338,7 +386,8 @@ def runLine (line : String) : String :=
               obsH (runHistory false ro.locals env ws) ++ "\t=" ++ obsH (runHistory true ro.locals env ws)
             else
             match runCtx false ro.ctx env ws, runCtx true ro.ctx env ws with
-            | some a, some b => obsW a ++ "\t=" ++ obsW b
+            | some a, some b =>
+              obsW (showInitial false ro.ctx env ws) a ++ "\t=" ++ obsW (showInitial true ro.ctx env ws) b
             | _, _ => "bad-case\t-"
         else if kind = "P" then
           match decChars r with
@@ -348,9 +397,11 @@ def runLine (line : String) : String :=
           match decChars r with
           | none => "bad-case\t-"
           | some input =>
-            let (text, found) := readInput ro.raw input
+            let (text, found) := readInput ro.raw ro.delim input
+            let (stext, sfound) := specReadInput ro.raw ro.delim input
             let ifs := match env.getScalar "IFS" with | some s => Ifs.new s | none => Ifs.default
-            obsR env found (readAssign ifs text (ro.n - 1)) ++ "\t=" ++ obsR env found (specRead ifs text (ro.n - 1))
+            obsR env found text (readAssign ifs text (ro.n - 1)) ++ "\t=" ++
+              obsR env sfound stext (specRead ifs stext (ro.n - 1))
         else "bad-case\t-"
     | [] => "bad-case\t-"
   | _ => "bad-case\t-"
